@@ -15,7 +15,7 @@ def nontrivial(r):
 
 def run(chk):
     n = 320 if chk.tier == "quick" else 4000
-    HC.run_prop(chk, "C05", ["C05", "C05", "C05", "invalid"], n, RULE, ASSUME, nontrivial)
+    HC.run_prop(chk, "C05", ["C05", "C05:sge", "C05:lsf", "C05:local", "C05", "invalid"], n, RULE, ASSUME, nontrivial)
 
 
 def replay(chk, data):
